@@ -90,10 +90,19 @@ def _read(ctx, env, text):
             warnings.simplefilter("ignore")
             return ANMLReader(env).parse_problem_string(text, "reread")
     except (ParseBaseException, SyntaxError, UPException, NotImplementedError) as e:
-        loc = ""
+        loc, kind = "", type(e).__name__
         if isinstance(e, ParseBaseException):
+            import re
             loc = f" at line {e.lineno} col {e.col}: {e.line!r}"
-        ctx.fail(f"rejected:{type(e).__name__}", f"ANMLReader rejects the text ANMLWriter produced: {type(e).__name__}: {str(e)[:300]}{loc}\n{text}")
+            lines = text.splitlines()
+            around = " ".join(lines[max(0, e.lineno - 2):e.lineno])
+            if re.match(r"\s*(fluent|constant) (integer|float) [\[(]", e.line):
+                kind = "numeric-type-bound"
+            elif "when (" in around:
+                kind = "when-parenthesised-condition"
+            elif re.match(r"\s*(type|instance|fluent|constant|action) ", e.line) and not all(re.fullmatch(r"[A-Za-z_][A-Za-z0-9_]*", w) for w in re.split(r"[\s(),;<{:\"]+", e.line) if w and not w[0].isdigit()):
+                kind = "invalid-identifier"
+        ctx.fail(f"rejected:{kind}", f"ANMLReader rejects the text ANMLWriter produced: {type(e).__name__}: {str(e)[:300]}{loc}\n{text}")
 
 
 def _writer_object_order(P):
